@@ -32,6 +32,20 @@ def _comps(A):
     return [np.ascontiguousarray(c[..., k]) for k in range(4)]
 
 
+def _coo_dup(x, rng):
+    """COO matrix holding x as the SUM of two stored contributions per entry (finite-element style assembly: duplicates are not merged)."""
+    x = np.asarray(x, dtype=float)
+    r, c = np.nonzero(np.ones_like(x))
+    part = np.round(x[r, c] * 0.5, 3)
+    return sparse.coo_matrix((np.concatenate([part, x[r, c] - part]), (np.concatenate([r, r]), np.concatenate([c, c]))), shape=x.shape)
+
+
+def _csr_explicit_zeros(x):
+    m = sparse.csr_matrix(np.ones_like(np.asarray(x, dtype=float)))
+    m.data[:] = np.asarray(x, dtype=float).ravel()          # every position stored, including the zeros
+    return m
+
+
 def cases(tier, seed):
     out = []
     nrep = 4 if tier == "quick" else 16
@@ -101,6 +115,11 @@ def _defs(spec, ctx, R):
         "normQ": lambda: U.normQ(A.copy()),
         "normQsparse:ndarray": lambda: U.normQsparse(*_comps(A)),
         "normQsparse:scipy": lambda: U.normQsparse(*[sparse.csr_matrix(x) for x in _comps(A)]),
+        "normQsparse:scipy_csc": lambda: U.normQsparse(*[sparse.csc_matrix(x) for x in _comps(A)]),
+        "normQsparse:scipy_coo_duplicates": lambda: U.normQsparse(*[_coo_dup(x, rng) for x in _comps(A)]),
+        "normQsparse:scipy_lil": lambda: U.normQsparse(*[sparse.lil_matrix(x) for x in _comps(A)]),
+        "normQsparse:scipy_explicit_zeros": lambda: U.normQsparse(*[_csr_explicit_zeros(x) for x in _comps(A)]),
+        "quat_frobenius_norm:sparse_coo_duplicates": lambda: U.quat_frobenius_norm(U.SparseQuaternionMatrix(*[_coo_dup(x, rng) for x in _comps(A)], A.shape)),
         "tensor_frobenius_norm": lambda: T.tensor_frobenius_norm(A.copy()),
         "tensor_frobenius_norm:3d": lambda: T.tensor_frobenius_norm(A.copy().reshape(m, n, 1)),
     }
